@@ -26,7 +26,7 @@ fn build_map<Ty: EdgeType>(g: &Sg) -> GraphMap<u32, i64, Ty> {
     h
 }
 
-fn run_pair<Ty: EdgeType>(g0: &Sg, g1: &Sg, qs: &[GOp], use_map: bool, out: &mut Out) {
+fn run_pair<Ty: EdgeType>(g0: &Sg, g1: &Sg, qs: &[GOp], use_map: bool, raw_order: bool, out: &mut Out) {
     let a = build::<Ty>(g0); let b = build::<Ty>(g1);
     let am = build_map::<Ty>(g0); let bm = build_map::<Ty>(g1);
     for q in qs {
@@ -43,7 +43,7 @@ fn run_pair<Ty: EdgeType>(g0: &Sg, g1: &Sg, qs: &[GOp], use_map: bool, out: &mut
                     let mut emf = |x: &i64, y: &i64| wmatch(em, *x, *y);
                     let ga = &a; let gb = &b;
                     let mut all: Vec<Vec<usize>> = match algo::subgraph_isomorphisms_iter(&ga, &gb, &mut nmf, &mut emf) { Some(it) => it.collect(), None => Vec::new() };
-                    all.sort();
+                    if !raw_order { all.sort(); }      // stream C13v keeps the order in which the iterator yields
                     let mut v = vec![line("nat", &[all.len() as i64])];
                     for m in all { v.push(line("row", &m.iter().map(|x| *x as i64).collect::<Vec<_>>())); }
                     v
@@ -75,7 +75,8 @@ fn relabel(r: &mut Rng, g: &Sg, directed: bool) -> Sg {
     Sg { n: g.n, nw, es }
 }
 
-pub fn gen(seed: u64, n: usize, out: &mut Out) {
+pub fn gen(stream: &str, seed: u64, n: usize, out: &mut Out) {
+    let raw_order = stream == "C13v";
     let mut r = Rng::new(seed ^ 0xC13);
     for id in 0..n {
         let directed = r.chance(50);
@@ -111,12 +112,12 @@ pub fn gen(seed: u64, n: usize, out: &mut Out) {
         qs.push(("sub_matching".into(), vec![nm, em]));
         qs.push(("sub_iter".into(), vec![nm, em]));
         if r.chance(40) { qs.push(("sub_iter".into(), vec![0, 0])); }
-        let use_map = r.chance(30);
+        let use_map = r.chance(30) && !raw_order;
         if std::env::var("PGH_DEBUG").is_ok() { eprintln!("case {} dir {} kind {} map {} g0 {:?} {:?} g1 {:?} {:?} qs {:?}", id, directed, kind, use_map, g0.nw, g0.es, g1.nw, g1.es, qs); }
         out.case(id, &[directed as i64, cfg!(debug_assertions) as i64, kind as i64, use_map as i64]);
         let flat = |es: &Vec<(usize, usize, i64)>| es.iter().flat_map(|e| vec![e.0 as i64, e.1 as i64, e.2]).collect::<Vec<_>>();
         for o in [("n0".to_string(), g0.nw.clone()), ("e0".to_string(), flat(&g0.es)), ("n1".to_string(), g1.nw.clone()), ("e1".to_string(), flat(&g1.es))] { out.op(&o); out.obs_lines(&[]); }
-        if directed { run_pair::<Directed>(&g0, &g1, &qs, use_map, out) } else { run_pair::<Undirected>(&g0, &g1, &qs, use_map, out) }
+        if directed { run_pair::<Directed>(&g0, &g1, &qs, use_map, raw_order, out) } else { run_pair::<Undirected>(&g0, &g1, &qs, use_map, raw_order, out) }
         out.end_case();
         out.stat(&format!("kind_{}", kind));
         out.stat(if directed { "directed" } else { "undirected" });
